@@ -248,6 +248,7 @@ _JSONDICT_PROTECTED_KEYS = frozenset(
         "_validators",
         "_all_validators",
         "_load_and_save",
+        "_save_only",
         "_suspend_sync",
         "_supports_threading",
         "_LoadSaveType",
